@@ -221,7 +221,19 @@ fn judge_relations<F: Fl>(c: &Case, l: &mut Local) {
         // geometric
         let ag = call(|| a_log.ci_mean(cf)).map(|i| F::obs(&i));
         let gg = call(|| g.ci_mean(cf)).map(|i| F::obs(&i));
-        let gg1 = call(|| Geometric::<F>::ci(cf, &x)).map(|i| F::obs(&i));
+        // the one-shot entry point, in rotation: inherent on a Vec; on user-defined views whose iterators announce 0 /
+        // half of their length / more slots than values; trait-qualified (what generic code calls)
+        let how = (n + kind as usize + (level.to_bits() >> 40) as usize) % 6;
+        let one_shot_g = |how: usize| match how {
+            0 => call(|| Geometric::<F>::ci(cf, &x)).map(|i| F::obs(&i)),
+            1 => call(|| Geometric::<F>::ci(cf, &crate::lazy::Lazy(x.clone()))).map(|i| F::obs(&i)),
+            2 => call(|| Geometric::<F>::ci(cf, &crate::lazy::HeadKnown(x.clone(), n / 2))).map(|i| F::obs(&i)),
+            3 => call(|| Geometric::<F>::ci(cf, &crate::lazy::Sparse::of(&x, 2))).map(|i| F::obs(&i)),
+            4 => call(|| <Geometric<F> as stats_ci::MeanCI<F>>::ci(cf, &crate::lazy::Lazy(x.clone()))).map(|i| F::obs(&i)),
+            _ => call(|| <Geometric<F> as StatisticsOps<F>>::ci(cf, &x)).map(|i| F::obs(&i)),
+        };
+        let gg1 = one_shot_g(how);
+        l.count(["one-shot ci: inherent, Vec", "one-shot ci: view announcing length 0", "one-shot ci: view announcing half its length", "one-shot ci: column with holes", "one-shot ci: MeanCI::ci on a view", "one-shot ci: StatisticsOps::ci"][how]);
         l.eval();
         match (&ag, &gg) {
             (Out::Ok(a), Out::Ok(o)) if !a.has_nan() => {
@@ -251,7 +263,14 @@ fn judge_relations<F: Fl>(c: &Case, l: &mut Local) {
         }
         let ar = call(|| a_rec.ci_mean(conf(kind.flipped(), level))).map(|i| F::obs(&i));
         let hh = call(|| h.ci_mean(cf)).map(|i| F::obs(&i));
-        let hh1 = call(|| Harmonic::<F>::ci(cf, &x)).map(|i| F::obs(&i));
+        let hh1 = match how {
+            0 => call(|| Harmonic::<F>::ci(cf, &x)).map(|i| F::obs(&i)),
+            1 => call(|| Harmonic::<F>::ci(cf, &crate::lazy::Lazy(x.clone()))).map(|i| F::obs(&i)),
+            2 => call(|| Harmonic::<F>::ci(cf, &crate::lazy::HeadKnown(x.clone(), n / 2))).map(|i| F::obs(&i)),
+            3 => call(|| Harmonic::<F>::ci(cf, &crate::lazy::Sparse::of(&x, 2))).map(|i| F::obs(&i)),
+            4 => call(|| <Harmonic<F> as stats_ci::MeanCI<F>>::ci(cf, &crate::lazy::Lazy(x.clone()))).map(|i| F::obs(&i)),
+            _ => call(|| <Harmonic<F> as StatisticsOps<F>>::ci(cf, &x)).map(|i| F::obs(&i)),
+        };
         l.eval();
         match (&ar, &hh) {
             (Out::Ok(a), Out::Ok(o)) if !a.has_nan() => {
